@@ -346,6 +346,48 @@ def _last_modified(tok_i):
     return True
 
 
+def _file_continue(status_i, ftp, restart_ok):
+    """--continue: a partial local file exists, the request asks for the rest; the server answers with something else than the
+    requested remainder (200 instead of 206, 416 for a complete file, an error page; FTP: REST refused)."""
+    import wpull.writer as W
+    from wpull.path import PathNamer
+    from wpull.protocol.http.request import Request as HReq, Response as HResp
+    from wpull.protocol.ftp.request import Request as FReq, Response as FResp
+    status = pick([206, 200, 416, 404, 500, 301, 204], status_i)
+    opened = []
+    real_os, real_open_file = W.os, W.BaseFileWriterSession.open_file
+    import os as _os
+    W.os = types.SimpleNamespace(path=types.SimpleNamespace(exists=lambda p: True, getsize=lambda p: 10, isdir=lambda p: False, dirname=_os.path.dirname,
+                                                           split=_os.path.split, join=_os.path.join, splitext=_os.path.splitext, basename=_os.path.basename),
+                                 utime=lambda *a: None, makedirs=lambda *a: None, remove=lambda *a: None, rename=lambda *a: None)
+    W.BaseFileWriterSession.open_file = classmethod(lambda cls, filename, response, mode='wb+': opened.append(mode))
+    real_anti = W.anti_clobber_dir_path
+    W.anti_clobber_dir_path = lambda d, suffix='.d': d
+    try:
+        with nosym():
+            sess = W.BaseFileWriterSession(PathNamer('/dl'), True, False, False, False, False, False)
+            if ftp:
+                req = FReq('ftp://example.com/big.iso')
+                sess.process_request(req)
+                resp = FResp()
+                resp.request = req
+                resp.restart_value = req.restart_value if restart_ok else None
+            else:
+                req = HReq('http://example.com/big.iso')
+                sess.process_request(req)
+                resp = HResp(status, 'X')
+                resp.request = req
+        try:
+            sess.process_response(resp)
+        except REMOTE:
+            hit('refused')
+            return True
+    finally:
+        W.os, W.BaseFileWriterSession.open_file, W.anti_clobber_dir_path = real_os, real_open_file, real_anti
+    hit('continued')
+    return opened == ['ab+'] and ((ftp and restart_ok) or (not ftp and status == 206))
+
+
 def _web_processor_faults(e0, e1, stage):
     """stage 0: the first two requests of a visit answer a0, a1.  stage 1: robots.txt checking is on - the first two requests belong
     to the robots.txt fetch (a cross-origin redirect of robots.txt included), later ones answer 200."""
@@ -447,6 +489,11 @@ HARNESSES = [
       doc='--retr-symlinks=off: every pair from 12 symlink entries of a listing (duplicate names, names with / or .., absolute, empty, '
           'no target, NUL) over a model of os.symlink: the processor returns normally and every link created lies directly in the '
           'directory of the listing'),
+    H('file_continue', '_file_continue', 'status_i: int, ftp: bool, restart_ok: bool', pre=['0 <= status_i <= 6'],
+      timeout={'quick': 120, 'thorough': 300}, samples=[(0, False, True), (1, False, True), (0, True, False)], need=['refused', 'continued'],
+      funcs=['wpull/writer.py:BaseFileWriterSession.process_response', 'wpull/writer.py:BaseFileWriterSession._process_file_continue_response'],
+      doc='--continue with a partial local file: whatever the server answers to the range / REST request (206, 200, 416, 404, 500, '
+          '301, 204; FTP restart accepted or refused) the file writer appends, or fails with a per-URL error kind'),
     H('last_modified', '_last_modified', 'tok_i: int', pre=['0 <= tok_i < %d' % len(_LM)], timeout={'quick': 120, 'thorough': 300},
       samples=[(0,), (1,)], need=['set', 'ignored'], funcs=['wpull/writer.py:BaseFileWriterSession.set_timestamp'],
       doc='20 Last-Modified values (garbage, empty, impossible fields, years 0 / 1000 / 99999 / beyond time_t, obsolete formats, NUL) '
